@@ -25,3 +25,5 @@ def run(ctx):
     H.r16_2_kind_first(ctx)
     H.r16_3_decisions(ctx)
     H.r14_10_get_value_typestate(ctx, 'R16.4')
+    S.r03_8_whole_node(ctx, 'R16.5')
+    H.r14_1_scalar_table(ctx, 'R16.6')
